@@ -105,6 +105,8 @@ impl futures::Stream for GateStream {
     }
 }
 fn fut_done(op: usize, v: usize) { FRES[op].store(v, SeqCst); FRET[op].store(now(), SeqCst); NREADY[op].fetch_add(1, SeqCst); }
+static DESPAWN_LIVE: AtomicUsize = AtomicUsize::new(usize::MAX);
+static DESPAWN_MAX: AtomicUsize = AtomicUsize::new(usize::MAX);
 fn op_inv(op: usize) { INV[op].store(now(), SeqCst); }
 fn op_done(op: usize, v: usize) { RES[op].store(v, SeqCst); RET[op].store(now(), SeqCst); }
 ''')
@@ -129,19 +131,26 @@ fn op_done(op: usize, v: usize) { RES[op].store(v, SeqCst); RET[op].store(now(),
             if kind in ('sync', 'desync', 'try_sync'):
                 q = op[1]; b = op[2] if len(op) > 2 else {}
                 acts = b.get('acts', ['enter', 'yield', 'exit'])
-                code = []
+                code = []; outer = opid; opid += 1; pre = []
                 for a in acts:
-                    if a == 'enter': code.append('enter(%d, %d);' % (q, opid))
-                    elif a == 'exit': code.append('exit_(%d, %d);' % (q, opid))
+                    if a == 'enter': code.append('enter(%d, %d);' % (q, outer))
+                    elif a == 'exit': code.append('exit_(%d, %d);' % (q, outer))
                     elif a == 'yield': code.append('yield_();')
                     elif a == 'panic': code.append('if true { panic!("scenario job panics"); }')
                     elif a[0] == 'gate': code.append('gate_wait(%d);' % a[1])
-                tok = 40 + opid
-                body.append('op_inv(%d);' % opid)
-                if kind == 'sync': body.append('{ let r = sync(&q%d, move || { %s %d_usize }); op_done(%d, r); }' % (q, ' '.join(code), tok, opid))
-                elif kind == 'desync': body.append('{ desync(&q%d, move || { %s }); op_done(%d, 0); }' % (q, ' '.join(code), opid))
-                else: body.append('{ let r = try_sync(&q%d, move || { %s %d_usize }); op_done(%d, match r { Ok(v) => v, Err(_) => 9999 }); }' % (q, ' '.join(code), tok, opid))
-                opid += 1
+                    elif a[0] in ('desync', 'sync'):
+                        # an operation scheduled from inside the job (numbered right after the enclosing operation)
+                        nop = opid; opid += 1
+                        pre.append('let n%d_q%d = Arc::clone(&q%d);' % (nop, a[1], a[1]))
+                        inner = 'enter(%d, %d); yield_(); exit_(%d, %d);' % (a[1], nop, a[1], nop)
+                        if a[0] == 'desync': code.append('op_inv(%d); desync(&n%d_q%d, move || { %s }); op_done(%d, 0);' % (nop, nop, a[1], inner, nop))
+                        else: code.append('op_inv(%d); { let r = sync(&n%d_q%d, move || { %s %d_usize }); op_done(%d, r); }' % (nop, nop, a[1], inner, 40 + nop, nop))
+                tok = 40 + outer
+                body.append('op_inv(%d);' % outer)
+                pre = ' '.join(pre)
+                if kind == 'sync': body.append('{ %s let r = sync(&q%d, move || { %s %d_usize }); op_done(%d, r); }' % (pre, q, ' '.join(code), tok, outer))
+                elif kind == 'desync': body.append('{ %s desync(&q%d, move || { %s }); op_done(%d, 0); }' % (pre, q, ' '.join(code), outer))
+                else: body.append('{ %s let r = try_sync(&q%d, move || { %s %d_usize }); op_done(%d, match r { Ok(v) => v, Err(_) => 9999 }); }' % (pre, q, ' '.join(code), tok, outer))
             elif kind == 'open_gate': body.append('open_gate_wake(%d);' % op[1])
             elif kind in ('future_desync', 'future_sync'):
                 q = op[1]; b = op[2] if len(op) > 2 else {}
@@ -241,6 +250,8 @@ fn op_done(op: usize, v: usize) { RES[op].store(v, SeqCst); RET[op].store(now(),
             elif kind == 'd_drop':
                 cid = canaries[op[1]]
                 body.append('DROPBEGIN[%d].store(now(), SeqCst); drop(dv_%s.take()); DROPEND[%d].store(now(), SeqCst);' % (cid, op[1], cid))
+            elif kind == 'set_max': body.append('scheduler().set_max_threads(%d);' % op[1])
+            elif kind == 'despawn': body.append('scheduler().despawn_threads_if_overloaded(); DESPAWN_LIVE.store(vsched::live_pool_threads(), SeqCst); DESPAWN_MAX.store(%d, SeqCst);' % ([o[1] for o in th['ops'][:th['ops'].index(op)] if o[0] == 'set_max'] or [sc.get('pool_max', 0)])[-1])
             elif kind == 'd_give':
                 gives.append((op[2], op[1]))
                 body.append('vsched::harness_event("__give", |_| true); *SLOT_%d.lock().unwrap() = dv_%s.take(); SLOTFULL[%d].store(true, SeqCst);' % (op[2], op[1], op[2]))
@@ -258,6 +269,7 @@ fn op_done(op: usize, v: usize) { RES[op].store(v, SeqCst); RET[op].store(now(),
     A('    for (n, fin, pan) in threads.iter() { println!("THREAD {} finished={} panicked={}", n, fin, pan); }')
     A('    println!("GHOST overlap={} twice={}", OVERLAP.load(SeqCst), TWICE.load(SeqCst));')
     A('    println!("MEM uaf={}", UAF.load(SeqCst));')
+    A('    println!("DESPAWN live={} max={}", DESPAWN_LIVE.load(SeqCst) as isize, DESPAWN_MAX.load(SeqCst) as isize);')
     A('    for i in 0..%d { println!("CANARY {} ndrop={} dropbegin={} dropend={} freedat={}", i, NDROP[i].load(SeqCst), DROPBEGIN[i].load(SeqCst) as isize, DROPEND[i].load(SeqCst) as isize, FREEDAT[i].load(SeqCst) as isize); }' % max(1, len(canaries)))
     A('    for i in 0..%d { println!("OP {} nrun={} inv={} ret={} start={} end={} res={} fret={} fres={} nready={} fdropped={} resumed={} cancelled={}", i, NRUN[i].load(SeqCst), INV[i].load(SeqCst) as isize, RET[i].load(SeqCst) as isize, START[i].load(SeqCst) as isize, END[i].load(SeqCst) as isize, RES[i].load(SeqCst) as isize, FRET[i].load(SeqCst) as isize, FRES[i].load(SeqCst) as isize, NREADY[i].load(SeqCst), FDROPPED[i].load(SeqCst) as isize, RESUMED[i].load(SeqCst) as isize, CANCELLED[i].load(SeqCst)); }' % opid)
     A('    for i in 0..8 { println!("FLAG {} ndrop={}", i, FLAGDROP[i].load(SeqCst)); }')
@@ -309,6 +321,8 @@ def parse_output(out, wall):
                                              fret=int(m.group(8)), fres=int(m.group(9)), nready=int(m.group(10)), fdropped=int(m.group(11)), resumed=int(m.group(12)), cancelled=m.group(13) == 'true')
         elif line.startswith('MEM '):
             r['uaf'] = int(re.match(r'MEM uaf=(\d+)', line).group(1))
+        elif line.startswith('DESPAWN '):
+            m = re.match(r'DESPAWN live=(-?\d+) max=(-?\d+)', line); r['despawn'] = dict(live=int(m.group(1)), max=int(m.group(2)))
         elif line.startswith('CANARY '):
             m = re.match(r'CANARY (\d+) ndrop=(\d+) dropbegin=(-?\d+) dropend=(-?\d+) freedat=(-?\d+)', line)
             r.setdefault('canaries', {})[int(m.group(1))] = dict(ndrop=int(m.group(2)), dropbegin=int(m.group(3)), dropend=int(m.group(4)), freedat=int(m.group(5)))
@@ -512,6 +526,9 @@ def judge(spec, viol, rr):
         return ('reproduced', '; '.join(bad)) if bad else ('not_reproduced', '')
     if oracle == 'pool_max':
         pools = [n for n in rr['threads'] if re.match(r'P\d+$', n)]
+        dsp = rr.get('despawn', {})
+        if dsp.get('live', -1) >= 0 and dsp['live'] > dsp['max']: return 'reproduced', 'despawn_threads_if_overloaded returned with %d live pool threads, maximum %d' % (dsp['live'], dsp['max'])
+        # (a scenario that changes the maximum only ever lowers it, so the initial maximum bounds the number of threads ever spawned)
         return ('reproduced', 'pool threads %s > max %d' % (pools, sc.get('pool_max', 0))) if len(pools) > sc.get('pool_max', 0) else ('not_reproduced', '')
     if oracle == 'independent':
         bad = [k for k, o in ops.items() if not o.get('gated') and o['kind'] in ('desync', 'sync') and rr['ops'][k]['nrun'] != 1]
@@ -542,6 +559,11 @@ def opinfo(sc):
                 ops[k] = {'kind': op[0], 'obj': op[1], 'thread': th['name'], 'probe': b.get('probe'), 'idx': th['ops'].index(op),
                           'must_panic': bool(b.get('must_panic')), 'panics': ('panic' in b.get('acts', []) or b.get('fut') in ('panic', 'wake_panic')), 'gated': any(isinstance(x, (list, tuple)) and x[0] == 'gate' for x in b.get('acts', [])) or isinstance(b.get('fut'), (list, tuple)) or op[0] == 'suspend'}
                 k += 1
+                if op[0] in ('sync', 'desync', 'try_sync'):
+                    for a in b.get('acts', []):
+                        if isinstance(a, (list, tuple)) and a[0] in ('desync', 'sync'):
+                            ops[k] = {'kind': a[0], 'obj': a[1], 'thread': th['name'] + '/nested', 'probe': False, 'idx': 0, 'must_panic': False, 'panics': False, 'gated': False, 'nested': True}
+                            k += 1
     return ops
 
 def replay_file(path):
